@@ -360,6 +360,36 @@ def e_cross(case, t):
     t.call(name, getattr(net, name), l1, l2)
 
 
+@entry("inter_cross_node_index_out_of_range", (("N1", 5), ("N2", 5)),
+       variants=24,
+       kernels=("core._cross_local_clustering",
+                "core._nsi_cross_local_clustering",
+                "core._cross_transitivity", "core._nsi_cross_transitivity"))
+def e_cross_oob(case, t):
+    """A node list holding an index outside 0..N-1 (1-based numbering, -1):
+    rejected with a Python exception (the kernels' bounds checks are the
+    only validation cross_transitivity & co. have), never answered from
+    memory outside the adjacency copy / the weight vector."""
+    N1, N2 = case["d"]
+    if N1 < 1 or N2 < 1:
+        return
+    ok, r = t.call("InteractingNetworks", _inter, case, N1, N2)
+    if not ok:
+        return
+    net, l1, l2 = r
+    p = int(case["p"])
+    name = ("cross_local_clustering", "nsi_cross_local_clustering",
+            "cross_transitivity", "nsi_cross_transitivity")[p % 4]
+    N = net.N
+    bad = (N, -1, N + 3)[(p // 4) % 3]
+    l1, l2 = list(l1), list(l2)
+    if (p // 12) % 2:
+        l2[int(case["vs"]) % len(l2)] = bad
+    else:
+        l1[int(case["vs"]) % len(l1)] = bad
+    t.call("%s(bad=%d)" % (name, bad), getattr(net, name), l1, l2)
+
+
 def _eligible_cross_swap(cross):
     """Does a pair of cross links (a,b),(c,d) with no (a,d),(c,b) exist?
     Then one exists after every swap as well (the reverse swap)."""
